@@ -365,7 +365,12 @@ def glue_builtins() -> None:
 
 def format_funcname(func: object) -> str:
     try:
-        if isinstance(func, types.MethodType):
+        if isinstance(func, types.MethodType) or (
+            # bound method of a builtin type, such as some_list.clear
+            isinstance(func, types.BuiltinMethodType)
+            and func.__self__ is not None
+            and not isinstance(func.__self__, types.ModuleType)
+        ):
             return f"{func.__self__!r}.{func.__name__}"
         else:
             return f"{func.__module__}.{func.__qualname__}"  # type: ignore
@@ -443,13 +448,20 @@ def glue_contextlib() -> None:
             manager: object = None
             method: str
             arg: Optional[str] = None
-            if hasattr(callback, "__self__"):
+            if hasattr(callback, "__self__") and not isinstance(
+                # (a builtin function's __self__ is its module, not a manager)
+                callback.__self__,
+                types.ModuleType,
+            ):
                 manager = callback.__self__
-                if (
-                    # 3.7 used a wrapper function with a __self__ attribute
-                    # for actual __exit__ invocations. Later versions use a method.
-                    not isinstance(callback, types.MethodType)
-                    or callback.__func__.__name__ in ("__exit__", "__aexit__")
+                if isinstance(callback, types.MethodType) and (
+                    callback.__func__.__name__ in ("__exit__", "__aexit__")
+                    # the exit method might be an alias of, or a decorator
+                    # around, a function with some other name
+                    or callback.__func__
+                    is getattr(
+                        type(manager), "__exit__" if is_sync else "__aexit__", None
+                    )
                 ):
                     # stack.enter_context(some_cm) or stack.push(some_cm)
                     tag = "" if is_sync else "await "
